@@ -74,14 +74,17 @@ def langTy (g : Grammar) : Nat → Nat → Ty → List Val
         | b + 1 =>
           (cartesian (langTys g fuel b ((g.cls n).fields.map (·.2)))).map fun args => Val.node n 0 0 args
 def langTys (g : Grammar) : Nat → Nat → List Ty → List (List Val)
-  | 0, _, _ => []
+  | 0, _, [] => []
+  -- out of fuel with components still to enumerate: one EMPTY candidate list, which makes the
+  -- cartesian product (and the union) contribute nothing instead of ill-typed short tuples
+  | 0, _, _ :: _ => [[]]
   | _ + 1, _, [] => []
   | fuel + 1, budget, t :: ts => langTy g fuel budget t :: langTys g fuel budget ts
 end
 
 /-- the bounded language of the start symbol -/
 def boundedLanguage (g : Grammar) (d : Nat) : List Val :=
-  langTy g (4 * (d + 2) * (g.spec.classes.length + 4) + 64) d (.cls g.spec.start)
+  langTy g (4 * (d + 2) * (g.spec.classes.length + 4) * (specSize g.spec + 2) + 64) d (.cls g.spec.start)
 
 mutual
 /-- is the type finite-choice (so that `langTy` is meaningful for it)? -/
